@@ -122,15 +122,20 @@ func calcPMTProgramInfoLength(d *PMTData) uint16 {
 }
 
 func calcPMTSectionLength(d *PMTData) uint16 {
-	ret := uint16(4)
-	ret += calcDescriptorsLength(d.ProgramDescriptors)
+	ret := 4
+	ret += int(calcDescriptorsLength(d.ProgramDescriptors))
 
 	for _, es := range d.ElementaryStreams {
 		ret += 5
-		ret += calcDescriptorsLength(es.ElementaryStreamDescriptors)
+		ret += int(calcDescriptorsLength(es.ElementaryStreamDescriptors))
 	}
 
-	return ret
+	// A length that doesn't fit must not wrap around to a small one (0 stands for "no syntax section"): such a
+	// section is too big for anything that writes it anyway
+	if ret > 0xffff {
+		ret = 0xffff
+	}
+	return uint16(ret)
 }
 
 func writePMTSection(w *astikit.BitsWriter, d *PMTData) (int, error) {
